@@ -1,5 +1,6 @@
 import RModel.Driver.State
 import RModel.Impl.Repr
+import RModel.Impl.ArrayC
 /-! container-kernel command family: direct calls of the unexported 16-bit kernels (C01, C03, C15, C16 amplifier). -/
 namespace RModel.Driver
 open RModel RModel.Impl
@@ -94,6 +95,22 @@ def stepKern (st : St) (cmd : List String) (got : String) : Option (St × Verdic
             match parseContTok aAfterS with
             | some c' => if c'.toBSet 0 == a then none else some "receiver unchanged by a non-in-place kernel"
             | none => some "parsable receiver"
+          -- L2 tie: on two array containers the Go result, when it is an array, is literally the list the
+          -- modelled two-pointer kernel produces
+          let l2Ok : Verdict :=
+            match ca, cb, parseContTok resS with
+            | .arr xs, some (.arr ys), some (.arr zs) =>
+              let exp : Option (List Nat) := match op with
+                | "and" | "iand" => some (ArrayC.intersection2by2 xs ys)
+                | "or" | "ior" => some (ArrayC.union2by2 xs ys)
+                | "xor" | "ixor" => some (ArrayC.exclusiveUnion2by2 xs ys)
+                | "andNot" | "iandNot" => some (ArrayC.difference xs ys)
+                | _ => none
+              match exp with
+              | some e => if e == zs then none else some "array kernel model (L2) = Go array"
+              | none => none
+            | _, _, _ => none
+          let resOk := match resOk with | some m => some m | none => l2Ok
           some (st, match resOk, scOk, aliasOk, bOk, aOk with
             | some m, _, _, _, _ => some m
             | _, some m, _, _, _ => some m
